@@ -69,6 +69,22 @@ IsNearestDouble(d, m, e) ==
   /\ (e > -1074 => Cmp(m, TwoPow52) >= 0)             \* normalised unless subnormal
   /\ InInterval(FromDigits(d.digits), d.x, m, e)
 
+\* the same for a binary format with `prec` bits of precision and minimal exponent emin
+\* (binary64: 53, -1074; binary32: 24, -149): the decimal d rounds to m * 2^e
+RoundsTo(d, m, e, prec, emin) ==
+  LET dg == FromDigits(d.digits)
+      top == Pow2(prec - 1)
+      cu == CmpDecBin(dg, d.x, Add(MulSmall(m, 2), One), e - 1)
+      cl == IF m = <<>> THEN 1
+            ELSE IF m = top /\ e > emin THEN CmpDecBin(dg, d.x, Sub(MulSmall(m, 4), One), e - 2)
+            ELSE CmpDecBin(dg, d.x, Sub(MulSmall(m, 2), One), e - 1)
+  IN /\ e >= emin
+     /\ Cmp(m, Pow2(prec)) < 0
+     /\ (e > emin => Cmp(m, top) >= 0)
+     /\ (cu < 0 \/ (cu = 0 /\ IsEven(m))) /\ (cl > 0 \/ (cl = 0 /\ IsEven(m)))
+Prec(w) == IF w = 32 THEN 24 ELSE 53
+EMin(w) == IF w = 32 THEN -149 ELSE -1074
+
 \* |dg * 10^p - m * 2^e| on a common integer scale
 Dist(dg, p, m, e) ==
   LET a == Mul(MulPow10(dg, Max(p, 0)), Pow2(Max(0 - e, 0)))
